@@ -16,6 +16,7 @@ import (
 	"strconv"
 	"strings"
 	"sync"
+	"sync/atomic"
 	"syscall"
 	"time"
 
@@ -332,7 +333,51 @@ func buildDiskDB(r *rand.Rand, tmp string, delta bool, nops int) *diskDB {
 	d := &diskDB{c: diskCase{DB: *in, Sn: int(sn), Delta: delta, Conc: []int{1, 2, 8}[r.Intn(3)]}, dir: filepath.Join(tmp, "store")}
 	d.stored = e.ref.snapItm[sn]
 	snap := e.snaps[sn]
-	snap.Open()
+	if delta {
+		// StoreToDisk gives up the snapshot reference at once in this mode. While the scan runs,
+		// delete half of the snapshot's items, close every snapshot and let the collector reclaim
+		// them: they then exist only in the delta files.
+		e.ref.snapRef[sn]--
+		prev := nitro.VerifYieldHook
+		fired := false
+		var hmu sync.Mutex
+		nitro.VerifYieldHook = func(p int) {
+			prev(p)
+			if p != nitro.VerifPtStoreItem {
+				return
+			}
+			hmu.Lock()
+			defer hmu.Unlock()
+			if fired {
+				return
+			}
+			fired = true
+			for i, it := range d.stored {
+				if i%2 == 1 {
+					e.apply(mvOp{Op: "del", W: 0, Bs: b2i(it)})
+				}
+			}
+			for s2, c := range e.ref.snapRef {
+				for ; c > 0; c-- {
+					e.snaps[s2].Close()
+					e.ref.snapRef[s2]--
+				}
+			}
+			e.apply(mvOp{Op: "snap"})
+			e.apply(mvOp{Op: "close", Sn: int(e.ref.currSn - 1)})
+			e.db.GC()
+			deadline := time.Now().Add(5 * time.Second)
+			for time.Now().Before(deadline) {
+				if atomic.LoadInt64(&hookGCSent)-e.base[0] == atomic.LoadInt64(&hookGCDone)-e.base[1] {
+					break
+				}
+				time.Sleep(100 * time.Microsecond)
+			}
+		}
+		defer func() { nitro.VerifYieldHook = prev }()
+	} else {
+		snap.Open()
+	}
 	if err := e.db.StoreToDisk(d.dir, snap, d.c.Conc, nil); err != nil {
 		panic(fmt.Sprintf("StoreToDisk failed on an undamaged run: %v", err))
 	}
